@@ -813,9 +813,12 @@ def check_c19(tier, seed):
     conc_batch(acc, [("c19b", n)], seed, crash_share_num=0)
     acc.conc_extra()
     # history half: sequential histories with incremental maintenance switched on at a seeded step and consistent reads compared with the model
-    hcases = gen("c18", seed + 1000, 0, 500 if tier == "quick" else 20000)
+    hcases = gen("c18", seed + 1000, 0, 300 if tier == "quick" else 12000)
+    # dedicated mirror histories: tiny tuple domain, every write path (engine batches with in-batch repeats, delete requests naming a tuple
+    # several times, handler statements, conditional deletes, updates, large batches), a consistent read after every write
+    hcases += gen("c19a", seed, 0, 1200 if tier == "quick" else 60000)
     houts = execute(hcases, timeout_s=300)
-    acc.violation_oracles |= {"incremental_read_differs_from_relation", "incremental_read_failed", "persistent_facts_differ_from_model"}
+    acc.violation_oracles |= {"incremental_read_differs_from_relation", "incremental_read_failed", "persistent_facts_differ_from_model", "report_mismatch", "reopen_failed"}
     reads = 0
     for c, o in zip(hcases, houts):
         acc.add(c, o, hop_kinds(c).get("incr_read", 0) >= 1)
@@ -825,7 +828,11 @@ def check_c19(tier, seed):
             "from the incremental engine while 1-2 writers insert/delete (overlapping tuples, duplicates, absent deletes, multi-tuple batches) through the StorageEngine; seeded "
             "schedules as for C15; oracle: exhaustive linearization search - every consistent read equals the relation after some prefix between its invocation and return, no "
             "'worker disconnected' error, final arrangement = final relation; non-trivial = >=2 threads, >=1 write, >=1 scheduling decision")
-    return finish(acc, rule, CONC_ASSUME + ["the incremental worker is a free-running real thread, only ever waited on synchronously (request/response)"], minimiser=minimise_conc)
+    rule += ("; history half: sequential histories over a 2-3 tuple domain through every write path (engine batches with in-batch repeats, delete requests naming a tuple several times "
+             "or absent tuples, handler statements, bulk and conditional deletes, updates, large batches, restarts) with incremental maintenance switched on at a seeded step and a consistent "
+             "read of both relations after every write; oracle: arrangement = relation = set model, write reports = model")
+    return finish(acc, rule, CONC_ASSUME + ["the incremental worker is a free-running real thread, only ever waited on synchronously (request/response)"],
+                  minimiser=lambda case, oracle: minimise_conc(case, oracle) if "threads" in case else minimise_hsc(case, oracle))
 
 
 def check_c20(tier, seed):
